@@ -29,7 +29,11 @@ LEVEL_TEXT = ("Lean, for every input: == and != never let ConversionNotFound esc
               "(_find_path_recursive/_reduce_dimension) is proved to end quietly: on every graph reached by unit operations and "
               "dimensionally sound, size-consistent declarations, between units of one dimension it returns a path or the empty "
               "list and raises nothing, with assertions on or off, and the model's recursion fuel is never exhausted "
-              "(findPath_total, path_search_never_raises: the bounded recursion of the model is the unbounded one of the code). "
+              "(findPath_total, path_search_never_raises: the bounded recursion of the model is the unbounded one of the code), and "
+              "python -O changes nothing there: the search returns the same path and interns the same units in both modes, and a "
+              "directly settled conversion succeeds in both modes with the same result (path_search_mode_independent, "
+              "direct_conversion_mode_independent; Proofs/PathMode: every action of the search is oblivious of the flag except "
+              "the one assert of _reduce_dimension, which holds for units of one dimension). "
               "That no AssertionError escapes the factor-matching PLANNER is false for the pinned code (known findings, by structural class); outside those classes the "
               "claim rests on the kernel-evaluated family - identical outcomes with assertions on and off (family_dashO_same) - on "
               "differential execution of the model in both modes against python and python -O, and on the oracle.")
@@ -43,6 +47,7 @@ THEOREMS = [
     "Measured.C03.lt_incommensurable", "Measured.C03.eq_incommensurable",
     "Measured.Obligations.family_dashO_same",
     "Measured.findPath_total", "Measured.C07.path_search_never_raises",
+    "Measured.C07.path_search_mode_independent", "Measured.C07.direct_conversion_mode_independent",
 ]
 LEAN_TARGETS = ["Props.C07", "Obligations.C07"]
 QUICK = {"chunks": 3, "ops": 1200}
